@@ -5,7 +5,9 @@
    operation in between.
 
    Goroutines ("threads")
-     <<"pub", p>>    top-level Publish caller, publishes PubMsg[p]
+     <<"pub", p>>    top-level Publish caller: one call Publish(topic, PubMsg[p], PubRest[p]...) -- the messages of a
+                     call are persisted + sent one after the other, each in its own critical section, and in
+                     blocking mode each is waited for before the next one is handed over
      <<"cons", s>>   consumer of subscription s (environment): receives, may
                      Nack (NackBudget times), may publish Republish[s] to another
                      topic before settling, Acks
@@ -29,23 +31,28 @@
      LegacyNilLog          Close drops the message log without the lock and Publish
                            does not re-check it (nil-map write)
      MutPersistOutsideLock the message is persisted before the locks are taken
-                           (a concurrent Subscribe replays it AND receives it live)  *)
+                           (a concurrent Subscribe replays it AND receives it live)
+     MutBatchPersistFirst  a multi-message Publish persists the whole batch in the critical section of its
+                           first message (a Subscribe between two messages replays the later ones AND gets them live)
+     MutBatchNoWait        a blocking multi-message Publish hands all messages over before it waits for acks
+                           (the next message is receivable before the previous one was acked)          *)
 EXTENDS Naturals, Sequences, FiniteSets, TLC
 
 CONSTANTS Blocking, Persistent, Buf,
-          Pubs, PubMsg,        \* PubMsg[p] = message published by top-level publisher p
+          Pubs, PubMsg,        \* PubMsg[p] = (first) message published by top-level publisher p
+          PubRest,             \* PubRest[p] = the further messages of the same Publish call (<< >>: a single-message call)
           Msgs, MsgTopic,      \* MsgTopic[m]
           Subs, SubTopic,      \* SubTopic[s]
           PreSubs,             \* subscriptions already registered in Init
           Republish,           \* Republish[s] = message the consumer of s publishes before settling, or "none"
           NackBudget,          \* how many Nacks the consumers may issue altogether
           DoClose, Cancels,    \* Cancels \subseteq Subs whose context may be cancelled
-          LegacyHoldLocks, LegacyNilLog, MutPersistOutsideLock
+          LegacyHoldLocks, LegacyNilLog, MutPersistOutsideLock, MutBatchPersistFirst, MutBatchNoWait
 
 None == "none"
 NoT == <<"none">>
 
-VARIABLES pc, pm,
+VARIABLES pc, pm,               \* pm[t] = [cur |-> message being published, rest |-> messages of the call still to come]
           closed, closing, wg, closedMu,
           rwReaders, rwPending, rwWmu, rblocked, tmu,
           reg,                 \* reg[topic] registered subscriptions
@@ -86,7 +93,7 @@ Init ==
         ELSE IF t[1] = "subc" THEN (IF t[2] \in PreSubs THEN "done" ELSE "S_start")
         ELSE IF t[1] = "tear" THEN (IF t[2] \in PreSubs THEN "T_wait" ELSE "off")
         ELSE IF DoClose THEN "X_start" ELSE "done"]
-  /\ pm = [t \in PubThreads |-> IF t[1] = "pub" THEN PubMsg[t[2]] ELSE None]
+  /\ pm = [t \in PubThreads |-> IF t[1] = "pub" THEN [cur |-> PubMsg[t[2]], rest |-> PubRest[t[2]]] ELSE [cur |-> None, rest |-> << >>]]
   /\ closed = FALSE /\ closing = FALSE /\ closedMu = NoT /\ wg = Cardinality(PreSubs)
   /\ rwReaders = 0 /\ rwPending = FALSE /\ rwWmu = NoT /\ rblocked = {}
   /\ tmu = [tp \in Topics |-> NoT]
@@ -104,6 +111,10 @@ Init ==
   /\ panicked = FALSE
 
 Goto(t, l) == pc' = [pc EXCEPT ![t] = l]
+Cur(t) == pm[t].cur
+SeqToSet(q) == {q[i] : i \in DOMAIN q}
+CallMsgs(p) == {PubMsg[p]} \cup SeqToSet(PubRest[p])        \* all messages of p's Publish call
+IsFirstOfBatch(t) == t[1] = "pub" /\ Cur(t) = PubMsg[t[2]] /\ PubRest[t[2]] # << >>
 InLog(tp, m) == \E i \in DOMAIN persisted[tp] : persisted[tp][i] = m
 
 \* ------------------------------------------------------------------ Publish (threads in PubThreads)
@@ -112,7 +123,7 @@ PCheck(t) ==
   /\ IF closed THEN perr' = [perr EXCEPT ![t] = TRUE] /\ Goto(t, "P_ret") /\ UNCHANGED persisted
      ELSE /\ UNCHANGED perr
           /\ IF MutPersistOutsideLock /\ Persistent /\ ~logNil
-               THEN persisted' = [persisted EXCEPT ![MsgTopic[pm[t]]] = Append(@, pm[t])]
+               THEN persisted' = [persisted EXCEPT ![MsgTopic[Cur(t)]] = Append(@, Cur(t))]
                ELSE UNCHANGED persisted
           /\ Goto(t, "P_rlock")
   /\ UNCHANGED <<pm, closev, lockv, reg, snap, sent, sstate, settle, subv, got, logNil, nacksLeft, sched, recvd, acked, panicked>>
@@ -128,21 +139,25 @@ PRAdmitted(t) ==
   /\ UNCHANGED <<pm, closev, lockv, reg, snap, sent, sstate, settle, subv, got, persisted, logNil, nacksLeft, histv>>
 
 PTmu(t) ==
-  LET tp == MsgTopic[pm[t]] IN
+  LET tp == MsgTopic[Cur(t)] IN
   /\ pc[t] = "P_tmu" /\ tmu[tp] = NoT /\ tmu' = [tmu EXCEPT ![tp] = t]
   /\ Goto(t, "P_persist")
   /\ UNCHANGED <<pm, closev, rwReaders, rwPending, rwWmu, rblocked, reg, snap, sent, sstate, settle, subv, got, persisted, logNil, nacksLeft, histv>>
 
 \* persist + snapshot of the registered subscribers + one sender goroutine per subscriber: one critical section
 PPersistSend(t) ==
-  LET m == pm[t]  tp == MsgTopic[m] IN
+  LET m == Cur(t)  tp == MsgTopic[m]
+      \* what this critical section appends to the log
+      toLog == IF MutBatchPersistFirst /\ t[1] = "pub" /\ PubRest[t[2]] # << >>
+                 THEN (IF IsFirstOfBatch(t) THEN <<m>> \o PubRest[t[2]] ELSE << >>)
+                 ELSE <<m>> IN
   /\ pc[t] = "P_persist"
   /\ IF Persistent /\ logNil /\ ~MutPersistOutsideLock
        THEN \* Close has dropped the log in the meantime
             /\ IF LegacyNilLog THEN panicked' = TRUE /\ UNCHANGED perr
                                ELSE perr' = [perr EXCEPT ![t] = TRUE] /\ UNCHANGED panicked
             /\ UNCHANGED <<persisted, snap, sent, sstate, sched>> /\ Goto(t, "P_unlock")
-       ELSE /\ persisted' = IF Persistent /\ ~MutPersistOutsideLock THEN [persisted EXCEPT ![tp] = Append(@, m)] ELSE persisted
+       ELSE /\ persisted' = IF Persistent /\ ~MutPersistOutsideLock THEN [persisted EXCEPT ![tp] = @ \o toLog] ELSE persisted
             /\ snap' = [snap EXCEPT ![m] = reg[tp]] /\ sent' = [sent EXCEPT ![m] = TRUE]
             /\ sstate' = [x \in Senders |-> IF x[1] = m /\ x[2] \in reg[tp] THEN "lock" ELSE sstate[x]]
             /\ sched' = [x \in Senders |-> IF x[1] = m /\ x[2] \in reg[tp] THEN sched[x] + 1 ELSE sched[x]]
@@ -152,17 +167,26 @@ PPersistSend(t) ==
 
 \* waitForAckFromSubscribers: every sender of the snapshot finished, or the Pub/Sub is closing
 PWait(t) ==
-  LET m == pm[t] IN
+  LET m == Cur(t) IN
   /\ pc[t] = "P_wait"
   /\ (closing \/ \A s \in snap[m] : sstate[<<m, s>>] = "done")
-  /\ Goto(t, IF LegacyHoldLocks THEN "P_unlock" ELSE "P_ret")
+  /\ Goto(t, IF LegacyHoldLocks THEN "P_unlock" ELSE "P_next")
   /\ UNCHANGED <<pm, closev, lockv, reg, snap, sent, sstate, settle, subv, got, persisted, logNil, nacksLeft, histv>>
 
 PUnlock(t) ==
-  LET tp == MsgTopic[pm[t]] IN
+  LET tp == MsgTopic[Cur(t)] IN
   /\ pc[t] = "P_unlock" /\ tmu' = [tmu EXCEPT ![tp] = NoT] /\ rwReaders' = rwReaders - 1
-  /\ Goto(t, IF Blocking /\ ~LegacyHoldLocks /\ ~perr[t] THEN "P_wait" ELSE "P_ret")
+  /\ Goto(t, IF perr[t] THEN "P_ret"
+             ELSE IF Blocking /\ ~LegacyHoldLocks /\ ~(MutBatchNoWait /\ pm[t].rest # << >>) THEN "P_wait"
+             ELSE "P_next")
   /\ UNCHANGED <<pm, closev, rwPending, rwWmu, rblocked, reg, snap, sent, sstate, settle, subv, got, persisted, logNil, nacksLeft, histv>>
+
+\* the next message of the same Publish call (no new closed check), or the call returns
+PNext(t) ==
+  /\ pc[t] = "P_next"
+  /\ IF pm[t].rest = << >> THEN Goto(t, "P_ret") /\ UNCHANGED pm
+     ELSE pm' = [pm EXCEPT ![t] = [cur |-> Head(@.rest), rest |-> Tail(@.rest)]] /\ Goto(t, "P_rlock")
+  /\ UNCHANGED <<closev, lockv, reg, snap, sent, sstate, settle, subv, got, persisted, logNil, nacksLeft, histv>>
 
 PRet(t) ==
   /\ pc[t] = "P_ret"
@@ -263,8 +287,8 @@ CRecv(s) ==
   /\ pc[t] = "C_recv" /\ out[s] # << >> /\ got[s] = None
   /\ got' = [got EXCEPT ![s] = Head(out[s])] /\ out' = [out EXCEPT ![s] = Tail(@)]
   /\ recvd' = [recvd EXCEPT ![<<Head(out[s]), s>>] = @ + 1]
-  /\ IF Republish[s] # None /\ ~sent[Republish[s]] /\ pm[t] = None
-       THEN pm' = [pm EXCEPT ![t] = Republish[s]] /\ Goto(t, "P_check")
+  /\ IF Republish[s] # None /\ ~sent[Republish[s]] /\ Cur(t) = None
+       THEN pm' = [pm EXCEPT ![t] = [cur |-> Republish[s], rest |-> << >>]] /\ Goto(t, "P_check")
        ELSE Goto(t, "C_settle") /\ UNCHANGED pm
   /\ UNCHANGED <<closev, lockv, reg, snap, sent, sstate, settle, outClosed, sClosing, sClosed, sendMu, cancelled, persisted, logNil, nacksLeft, sched, acked, perr, panicked>>
 
@@ -293,7 +317,7 @@ XWait ==
   /\ UNCHANGED <<pm, closed, closing, wg, lockv, reg, snap, sent, sstate, settle, subv, got, persisted, nacksLeft, histv>>
 
 Next ==
-  \/ \E t \in PubThreads : PCheck(t) \/ PRLock(t) \/ PRAdmitted(t) \/ PTmu(t) \/ PPersistSend(t) \/ PWait(t) \/ PUnlock(t) \/ PRet(t)
+  \/ \E t \in PubThreads : PCheck(t) \/ PRLock(t) \/ PRAdmitted(t) \/ PTmu(t) \/ PPersistSend(t) \/ PWait(t) \/ PUnlock(t) \/ PNext(t) \/ PRet(t)
   \/ \E s \in Subs : SStart(s) \/ SAnnounce(s) \/ SRegister(s) \/ Cancel(s) \/ TWake(s) \/ TCloseOut(s) \/ TAnnounce(s) \/ TRemove(s)
                      \/ CRecv(s) \/ CAck(s) \/ CNack(s)
   \/ \E x \in Senders : SendLock(x) \/ SendLoop(x) \/ SendWait(x)
@@ -316,7 +340,13 @@ OnlyOwnTopic == \A x \in Senders : recvd[x] > 0 => MsgTopic[x[1]] = SubTopic[x[2
 \* C05 blocking mode: Publish has returned => every subscriber of the snapshot acked or was torn down (or closing)
 BlockingReturn ==
   Blocking => \A p \in Pubs : (pc[Pub(p)] = "done" /\ ~perr[Pub(p)]) =>
-                 (closing \/ \A s \in snap[PubMsg[p]] : acked[<<PubMsg[p], s>>] \/ sClosing[s])
+                 (closing \/ \A m \in CallMsgs(p) : \A s \in snap[m] : acked[<<m, s>>] \/ sClosing[s])
+\* C05 blocking mode: the messages of one Publish call are handed over one after the other --
+\* a message is sent only after its predecessor in the call was acked by (or is being torn down for) its whole snapshot
+BatchOrder ==
+  Blocking => \A p \in Pubs : \A i \in DOMAIN PubRest[p] :
+                 LET prev == IF i = 1 THEN PubMsg[p] ELSE PubRest[p][i - 1] IN
+                 sent[PubRest[p][i]] => (closing \/ \A s \in snap[prev] : acked[<<prev, s>>] \/ sClosing[s])
 \* C07: after Close has returned every output channel is closed and nothing is registered
 AfterClose == (DoClose /\ pc[Closer] = "done") => \A s \in Subs : (pc[Tear(s)] # "off" => outClosed[s]) /\ reg[SubTopic[s]] = {}
 \* no state without successor in which a call is still pending (dead-lock of API calls)
